@@ -150,10 +150,13 @@ def check_apply(rule, w, r_e, n, mo, dfl, nz, kappa):
     nsteps = L + 2
     for sgn in (1.0, -1.0):
         steps = np.array([sgn * r_e ** (-i) for i in range(nsteps)])
-        tag = '' if sgn > 0 else ':negative-steps'
-        for k in sorted({n, n + mo, max(n - 1, 0)}):
-            def f(t, k=k):
-                return t ** k
+        base_tag = '' if sgn > 0 else ':negative-steps'
+        coefs = [1.0] if rule.method in ('complex', 'multicomplex') else [1.0, 1.0 - 0.5j]      # complex-valued polynomials
+        for k, coef in [(k_, c_) for k_ in sorted({n, n + mo, max(n - 1, 0)}) for c_ in coefs]:
+            tag = base_tag + (':complex-coefficient' if coef != 1.0 else '')
+
+            def f(t, k=k, coef=coef):
+                return coef * t ** k
             seq = [rule.diff(f, f(0.0), 0.0, h) for h in steps]
             try:
                 der, hh, shape = rule.apply(seq, steps, r_e)
@@ -164,12 +167,13 @@ def check_apply(rule, w, r_e, n, mo, dfl, nz, kappa):
                 return ('apply-length' + tag, 'apply returned %d estimates for %d steps and a %d-term rule'
                         % (len(der), nsteps, L))
             for i in range(len(der)):
-                exact = sum(w[j] * dfl[k] * steps[i + j] ** k for j in range(L)) / steps[i] ** n if nz[k] else 0.0
-                mag = sum(abs(w[j] * dfl[k] * steps[i + j] ** k) for j in range(L)) / abs(steps[i]) ** n
+                exact = coef * (sum(w[j] * dfl[k] * steps[i + j] ** k for j in range(L)) / steps[i] ** n if nz[k] else 0.0)
+                mag = abs(coef) * sum(abs(w[j] * dfl[k] * steps[i + j] ** k) for j in range(L)) / abs(steps[i]) ** n
                 allow = 1e3 * EPS * kappa * max(mag, abs(exact)) + 1e-300
                 if not abs(der[i] - exact) <= allow:
                     return ('apply-mismatch' + tag, 'apply on t^%d with first step %g gives estimate[%d]=%r, weights '
-                            'applied to steps h_i..h_i+%d give %r' % (k, steps[0], i, der[i], L - 1, exact))
+                            'applied to steps h_i..h_i+%d give %r' % (k, steps[0], i, der[i], L - 1, exact) +
+                            (' (polynomial multiplied by %r)' % (coef,) if coef != 1.0 else ''))
     return None
 
 
